@@ -95,7 +95,10 @@ class TreeModel:
             if not self.is_file(path):
                 raise ModelError("edit of a missing file " + path)
             try:
-                self.files[path] = encode_text(text, newline_of(self.files[path]))
+                # optional 4th element: the newline convention to use when the
+                # current contents have no line break (convention undefined)
+                nl = op[3] if len(op) > 3 and op[3] else newline_of(self.files[path])
+                self.files[path] = encode_text(text, nl)
             except (UnicodeError, LookupError):
                 raise ModelError("text not encodable in its declared encoding " + path)
         elif kind in ("mkdir", "mkfile"):
